@@ -191,3 +191,28 @@ PROPS["C20"] = {
 PROPS["S00"] = {"groups": [{"run": "^vpH_S00_"}], "level_text": "engine smoke test", "level_note": ""}
 
 NOT_APPLICABLE = {}
+
+# scenario families added after the unseen seeded rounds (appended to the quick bound text of each property)
+_ADD = {
+    "C01": "; plus the C05 term histories (three terms; a slow second Create after a purge), the C13 follower next to foreign bytes then a vacancy, and the C10 late-round scenario; a refresh must also repeat the token",
+    "C02": "; H from 1 ms; plus a restart while a Create of the previous run is in flight (every Create 300 ms, TTL 3H, claim checked more than a TTL later) and the C07 stale-read scenario with a change of leader",
+    "C03": "; plus: one refresh answered with an error only after the time-out, then the record replaced (at most one attempt issued between the change and the demotion); the record replaced and the store silent from the next read on; the outage of H=1s with an arbitrary (symbolic) error text on every failing operation",
+    "C04": "; plus two terms of one election object both ended by a validation the application asks for (and by four other causes)",
+    "C05": "; plus: two acquisition rounds with Create latencies 150 ms and {0.3, 1.3, 2.3} s and a purge placed by the explorer; a demotion (ValidateTokenOrDemote with a failing read) placed by the explorer inside a heartbeat tick's health check; two takeover rounds of one instance with the first round's read answered 300 ms late",
+    "C06": "; plus: a second vacancy after the instance's own term; a restart with a stuck periodic read; a vacancy after a disconnect/reconnect blip seen by the follower (connection monitoring on); re-election after a health demotion (C12 family)",
+    "C07": "; plus: periodic validation next to heartbeats with latencies below H/2 (H=1s) and with H=10s and answers after 3 s / just under 5 s; a periodic-check read (150 ms) answered after the instance won the vacancy, with and without a change of leader in between; a leader of priority 10 (takeover off) next to a rule-abiding takeover-enabled starter of priority 5",
+    "C08": "; plus: deletion observed through the watcher; two terms ended by the same cause; restart while a Create of the previous run is in flight; a second Start on a running leader; Stop racing the grace-period expiry inside the expiry handler (C11 family)",
+    "C09": "; plus: every watcher the store handed out is stopped after the stop; a reconnect notification placed at every switch point of a running stop call (no store operation after the return)",
+    "C10": "; priorities up to 2^62; plus a late acquisition round of a leader that was preempted by a higher priority meanwhile (Create latencies 150/600 ms)",
+    "C11": "; plus: flapping while the first reconnect verification is inside its critical section (second disconnect, change of owner, second reconnect placed by the explorer); a new term acquired inside the grace period of an earlier disconnect; a reconnect notification against a running stop",
+    "C12": "; after a health demotion the record is removed and the instance must lead again; a checker that ignores its context and answers after 150 ms (explorer's choice per tick), thresholds 1 and 2",
+    "C13": "; plus a leader that followed before (watch loop running) whose record is overwritten with arbitrary bytes: demoted once, Status and Stop return",
+    "C14": "; plus: the consumer takes 0..n of up to 4 emitted entries (with or without ever calling Updates) and stops the watch: no forwarding goroutine is left",
+    "C17": "; zero-backoff configurations (InitialBackoff 0, zero-value BackoffConfig)",
+    "C18": "; plus: the watch channel closed while the record has silently lapsed (re-election won, or lost to a third instance that keeps the record); an ex-leader whose watch stream stays silent; ValidateTokenOrDemote placed at every switch point of a running Stop / StopWithContext (Metrics calls are scheduling points)",
+    "C19": "; plus a second Start on a running leader (ErrAlreadyStarted must not touch the term)",
+    "C20": "; plus: a restart after a stop that gave up waiting for a slow OnPromote callback (plain overwrite of a WaitGroup vs. its users); a Logger is configured (backing arrays made by library code are tracked, append writes into spare capacity); two acquisition rounds in flight (a *rand.Rand would be a tracked object)",
+}
+for _k, _v in _ADD.items():
+    if _k in PROPS and "bounds" in PROPS[_k] and "quick" in PROPS[_k]["bounds"]:
+        PROPS[_k]["bounds"]["quick"] += _v
